@@ -662,6 +662,7 @@ func (d *Decimal) Modf(integ, frac *Decimal) {
 	// No fractional part.
 	if d.Exponent > 0 {
 		if frac != nil {
+			frac.Form = Finite
 			frac.Negative = neg
 			frac.Exponent = 0
 			frac.Coeff.SetInt64(0)
@@ -676,6 +677,7 @@ func (d *Decimal) Modf(integ, frac *Decimal) {
 	// d < 0 because exponent is larger than number of digits.
 	if exp > nd {
 		if integ != nil {
+			integ.Form = Finite
 			integ.Negative = neg
 			integ.Exponent = 0
 			integ.Coeff.SetInt64(0)
@@ -692,6 +694,7 @@ func (d *Decimal) Modf(integ, frac *Decimal) {
 	var icoeff *BigInt
 	if integ != nil {
 		icoeff = &integ.Coeff
+		integ.Form = Finite
 		integ.Exponent = 0
 		integ.Negative = neg
 	} else {
@@ -702,6 +705,7 @@ func (d *Decimal) Modf(integ, frac *Decimal) {
 
 	if frac != nil {
 		icoeff.QuoRem(&d.Coeff, e, &frac.Coeff)
+		frac.Form = Finite
 		frac.Exponent = d.Exponent
 		frac.Negative = neg
 	} else {
